@@ -459,6 +459,18 @@ impl Repr {
     }
 }
 
+#[cfg(dashu_verif)]
+impl Repr {
+    /// Verification hook: (is_negative, capacity, len, is_heap, data pointer or 0).
+    pub(crate) fn verif_repr(&self) -> (bool, usize, usize, bool, usize) {
+        let (cap, sign) = self.sign_capacity();
+        let heap = cap > 2;
+        // SAFETY: the union field is selected by the capacity, as everywhere else in this module.
+        let ptr = if heap { unsafe { self.data.heap.0 as usize } } else { 0 };
+        (sign == Sign::Negative, cap, self.len(), heap, ptr)
+    }
+}
+
 // Cloning for Repr is written in a verbose way because it's performance critical.
 impl Clone for Repr {
     fn clone(&self) -> Self {
